@@ -26,8 +26,10 @@ def main():
     all_props = "--all-props" in args
     dirs = sorted(d for d in glob.glob(os.path.join(VERIF, "seeded", "C*-*")) if os.path.isdir(d))
     if filt:
-        dirs = [d for d in dirs if filt in d]
+        dirs = [d for d in dirs if re.search(filt, os.path.basename(d))]
     prev = {}
+    if "--first-run-out" in args:
+        os.environ["SEED_FIRST_OUT"] = args[args.index("--first-run-out") + 1]
     rj = os.path.join(VERIF, "seeded", "results.json")
     if os.path.exists(rj):
         prev = {r["change"]: r for r in json.load(open(rj))}
@@ -84,6 +86,8 @@ def main():
             shutil.rmtree(tmp, ignore_errors=True)
     allres = [prev[k] for k in sorted(prev)]
     json.dump(allres, open(rj, "w"), indent=1)
+    if os.environ.get("SEED_FIRST_OUT"):
+        json.dump([prev[os.path.basename(d)] for d in dirs if os.path.basename(d) in prev], open(os.path.join(VERIF, "seeded", os.environ["SEED_FIRST_OUT"]), "w"), indent=1)
     with open(os.path.join(VERIF, "seeded", "RESULTS.md"), "w") as f:
         f.write("# Seeded breaking changes (written by independent sub-agents from the property text)\n\n")
         f.write("Generated by tools/seed_eval.py against the current /repo and contracts.\n\n")
@@ -91,6 +95,9 @@ def main():
         fr = os.path.join(VERIF, "seeded", "results_first_run.json")
         if os.path.exists(fr):
             first = {r["change"]: r for r in json.load(open(fr))}
+            fr2 = os.path.join(VERIF, "seeded", "results_first_run_round2.json")
+            if os.path.exists(fr2):
+                first.update({r["change"]: r for r in json.load(open(fr2))})
             f.write("`first run` is the verdict of the checks as they stood BEFORE the change was seen (46 of 59 caught; C20-3 arrived later and was caught by the machinery as strengthened for C20-2); every change missed then led to a strengthened contract or engine fix, listed in DESIGN.md section 8.6.\n\n")
         f.write("| change | property | first run | now | tests still pass | demo fails on patched | obligations reported / note |\n|---|---|---|---|---|---|---|\n")
         for r in allres:
